@@ -873,7 +873,13 @@ func (ev *Env) evalIndex(x *EIndex) Value {
 				} else {
 					k = fc.keyTerm(ev.cur(), iv, u.Key())
 				}
-				return fc.loadAt(ev.cur(), mk.val, []string{b.T, k}, []string{"Int", mk.ksort}, "", u.Elem())
+				// Go semantics: a missing key (or a nil map) yields the zero value
+				stored := fc.loadAt(ev.cur(), mk.val, []string{b.T, k}, []string{"Int", mk.ksort}, "", u.Elem())
+				if _, isSc := stored.(Scalar); !isSc {
+					return stored
+				}
+				has := tAnd(tNot(tEq(b.T, "0")), fc.mapHas(ev.cur(), mk, b.T, k))
+				return fc.mergeValues([]string{has, tNot(has)}, []Value{stored, fc.zeroValue(u.Elem())}, u.Elem())
 			case *types.Pointer:
 				if at, ok := u.Elem().Underlying().(*types.Array); ok {
 					pl := fc.elemPlace(b.T, ev.idx(iv), at.Elem())
